@@ -533,7 +533,7 @@ main:
 			start += n
 			if err != nil {
 				uplink.logger.Warn("Failed to batch write packets to natConn",
-					zap.Stringer("clientAddress", &queuedPacket.clientAddrPort),
+					zap.Stringer("clientAddress", &qpvec[start].clientAddrPort),
 					zap.String("username", uplink.username),
 					zap.Uint64("clientSessionID", uplink.csid),
 					zap.Stringer("targetAddress", &qpvec[start].targetAddr),
@@ -552,7 +552,7 @@ main:
 
 		if err := uplink.natConn.SetReadDeadline(time.Now().Add(uplink.natTimeout)); err != nil {
 			uplink.logger.Error("Failed to set read deadline on natConn",
-				zap.Stringer("clientAddress", &queuedPacket.clientAddrPort),
+				zap.Stringer("clientAddress", &qpvec[count-1].clientAddrPort),
 				zap.String("username", uplink.username),
 				zap.Uint64("clientSessionID", uplink.csid),
 				zap.String("client", uplink.clientName),
